@@ -20,19 +20,19 @@ import (
 )
 
 type WorkerArgs struct {
-	Prop   string `json:"prop"`
-	Mode   string `json:"mode"` // explore | replay | shrink
-	Seed   int64  `json:"seed"`
-	From   int64  `json:"from"`
-	Stride int64  `json:"stride"`
-	Count  int64  `json:"count"`
-	Tier   string `json:"tier"`
-	Out    string `json:"out"`
-	Cur    string `json:"cur"`  // file that always holds the index of the run in flight
-	File   string `json:"file"` // replay file (replay / shrink)
-	Budget int    `json:"budget"`
-	Known  string `json:"known"`
-	Labels bool   `json:"labels"`
+	Prop     string `json:"prop"`
+	Mode     string `json:"mode"` // explore | replay | shrink
+	Seed     int64  `json:"seed"`
+	From     int64  `json:"from"`
+	Stride   int64  `json:"stride"`
+	Count    int64  `json:"count"`
+	Tier     string `json:"tier"`
+	Out      string `json:"out"`
+	Cur      string `json:"cur"`  // file that always holds the index of the run in flight
+	File     string `json:"file"` // replay file (replay / shrink)
+	Budget   int    `json:"budget"`
+	Known    string `json:"known"`
+	Labels   bool   `json:"labels"`
 	TraceOut string `json:"trace_out"`
 }
 
@@ -63,22 +63,22 @@ type KnownFinding struct {
 }
 
 type WorkerResult struct {
-	Runs       int64            `json:"runs"`
-	Skipped    int64            `json:"skipped"`
-	Evals      int64            `json:"evals"`
-	Steps      uint64           `json:"steps"`
-	Nontrivial int64            `json:"nontrivial"`
-	Faults     map[string]int   `json:"faults"`
-	Probes     map[string]int   `json:"probes"`
-	Fps        []uint64         `json:"fps"`
-	AllFps     []uint64         `json:"all_fps,omitempty"`
-	Samples    []interface{}    `json:"samples"`
-	Violation  *Violation       `json:"violation,omitempty"`
-	KnownHits  map[string]int64 `json:"known_hits,omitempty"`
+	Runs       int64                 `json:"runs"`
+	Skipped    int64                 `json:"skipped"`
+	Evals      int64                 `json:"evals"`
+	Steps      uint64                `json:"steps"`
+	Nontrivial int64                 `json:"nontrivial"`
+	Faults     map[string]int        `json:"faults"`
+	Probes     map[string]int        `json:"probes"`
+	Fps        []uint64              `json:"fps"`
+	AllFps     []uint64              `json:"all_fps,omitempty"`
+	Samples    []interface{}         `json:"samples"`
+	Violation  *Violation            `json:"violation,omitempty"`
+	KnownHits  map[string]int64      `json:"known_hits,omitempty"`
 	KnownFirst map[string]*Violation `json:"known_first,omitempty"`
-	WallS      float64          `json:"wall_s"`
-	Outcome    *Outcome         `json:"outcome,omitempty"` // replay mode
-	Sites      int              `json:"sites"`
+	WallS      float64               `json:"wall_s"`
+	Outcome    *Outcome              `json:"outcome,omitempty"` // replay mode
+	Sites      int                   `json:"sites"`
 }
 
 func loadKnown(path, prop string) []KnownFinding {
